@@ -1,14 +1,16 @@
 (* Property C14 — calling an interface follows the PEP 246 adaptation order.
    Only statements here; proofs are in Proofs/Adapt.v.  Vocabulary (Model/Adapt.v):
-     [chain]  the interface's inheritance chain, root first; each level may define __adapt__
-              and/or another @interfacemethod; [type_of_chain p chain] is the class
-              InterfaceClass.__new__ builds for the last interface ([p] = the flag is propagated,
-              i.e. the current logic; the Python path does not depend on it)
+     [chain]  the interface's inheritance chain, root first; each level may define __adapt__,
+              providedBy and/or another method, with @interfacemethod or in a plain subclass of
+              the interface class; [type_of_chain p chain] is the class InterfaceClass.__new__ /
+              __init_subclass__ build for the last interface ([p] = __new__ propagates the flag;
+              the Python path does not depend on the flags)
      [o]      the behaviour of obj.__conform__, whether obj provides I, the adapter_hooks list
               and the alternate
      [py_call] / [c_call]  InterfaceBase.__call__ / IB__call__: (log of external steps, outcome)
      [spec]   Spec/Pep246.v: first step that does not pass, over
-              conform :: (custom __adapt__ | provided :: hooks in order) ++ [alternate]. *)
+              conform :: (custom __adapt__ | (providedBy override | provided) :: hooks in order)
+              ++ [alternate]. *)
 From Coq Require Import List Bool Arith.
 Import ListNotations.
 From ZI Require Import Model.Adapt Spec.Pep246 Proofs.Adapt.
@@ -30,7 +32,7 @@ Print Assumptions C14_c_call_follows_precedence.
    exactly the actions of that prefix and of the deciding step, nothing after it *)
 Theorem C14_lazy : forall p chain o,
   exists pre rest,
-    steps (custom_defs 0 chain) o = pre ++ rest /\ Forall passes pre /\
+    steps (custom_defs 0 chain) (prov_defs 0 chain) o = pre ++ rest /\ Forall passes pre /\
     match rest with
     | [] => py_call (type_of_chain p chain) o = (concat (map fst pre), RaiseCouldNotAdapt)
     | s :: _ => exists r, snd s = Yield r /\
@@ -39,20 +41,23 @@ Theorem C14_lazy : forall p chain o,
 Proof. exact lazy_prefix. Qed.
 Print Assumptions C14_lazy.
 
-(* a hook is called only if __conform__ passed, the object does not provide the interface, every
-   earlier hook returned None, and every custom __adapt__ on the way delegated *)
+(* a hook is called only if __conform__ passed, the provided-check (the built-in one, or the
+   providedBy override) said no, every earlier hook returned None, and every custom __adapt__ on
+   the way delegated; without an override "said no" is [provides o = false] *)
 Theorem C14_lazy_hooks : forall p chain o i,
   In (EvHook i) (fst (py_call (type_of_chain p chain) o)) ->
-  conform_passes (conf o) = true /\ provides o = false /\
+  conform_passes (conf o) = true /\ provided_passes (prov_defs 0 chain) o = true /\
   (forall j, j < i -> nth_error (hooks o) j = Some HNone) /\
   Forall delegates (custom_defs 0 chain).
 Proof. exact lazy_hooks. Qed.
 Print Assumptions C14_lazy_hooks.
 
-(* the provided-check runs only if __conform__ passed (and no custom __adapt__ took over) *)
+(* the built-in provided-check runs only if __conform__ passed and neither a custom __adapt__ nor
+   a providedBy override took over *)
 Theorem C14_lazy_provided : forall p chain o,
   In EvProvided (fst (py_call (type_of_chain p chain) o)) ->
-  conform_passes (conf o) = true /\ Forall delegates (custom_defs 0 chain).
+  conform_passes (conf o) = true /\ Forall delegates (custom_defs 0 chain) /\
+  Forall pdelegates (prov_defs 0 chain).
 Proof. exact lazy_provided. Qed.
 Print Assumptions C14_lazy_provided.
 
@@ -63,7 +68,8 @@ Print Assumptions C14_steps_run_once.
 
 (* exceptions propagate unchanged: from reading __conform__ (unless AttributeError), from
    __conform__(I) (any class, AttributeError and TypeError raised in user code included), from
-   the custom __adapt__ that is reached, from the first hook that does not return None *)
+   the custom __adapt__ that is reached, from the providedBy override that is reached, from the
+   first hook that does not return None *)
 Theorem C14_exceptions_propagate : forall p chain o e,
   let out := snd (py_call (type_of_chain p chain) o) in
   (conf o = CGetRaise e -> e_kind e <> EAttr -> out = RaiseE (User e)) /\
@@ -72,7 +78,10 @@ Theorem C14_exceptions_propagate : forall p chain o e,
      forall dels i rest, custom_defs 0 chain = dels ++ (i, CARaise e) :: rest ->
      Forall delegates dels -> out = RaiseE (User e)) /\
   (conform_passes (conf o) = true -> Forall delegates (custom_defs 0 chain) ->
-     provides o = false ->
+     forall pdels i rest, prov_defs 0 chain = pdels ++ (i, PBRaise e) :: rest ->
+     Forall pdelegates pdels -> out = RaiseE (User e)) /\
+  (conform_passes (conf o) = true -> Forall delegates (custom_defs 0 chain) ->
+     provided_passes (prov_defs 0 chain) o = true ->
      forall pre post, hooks o = pre ++ HRaise e :: post -> Forall (fun h => h = HNone) pre ->
      out = RaiseE (User e)).
 Proof. exact exceptions_propagate. Qed.
@@ -84,7 +93,8 @@ Theorem C14_no_other_exceptions : forall p chain o r,
   snd (py_call (type_of_chain p chain) o) = RaiseE r ->
   exists e, r = User e /\
     (conf o = CGetRaise e \/ conf o = CRaise e \/ In (HRaise e) (hooks o) \/
-     exists i, In (i, CARaise e) (custom_defs 0 chain)).
+     (exists i, In (i, CARaise e) (custom_defs 0 chain)) \/
+     (exists i, In (i, PBRaise e) (prov_defs 0 chain))).
 Proof. exact no_other_exceptions. Qed.
 Print Assumptions C14_no_other_exceptions.
 
@@ -95,6 +105,7 @@ Theorem C14_custom_adapt_replaces : forall p chain o i b rest,
   custom_defs 0 chain = (i, b) :: rest -> b <> CADelegate ->
   let r := py_call (type_of_chain p chain) o in
   ~ In EvProvided (fst r) /\ (forall j, ~ In (EvHook j) (fst r)) /\
+  (forall j, ~ In (EvCustomProv j) (fst r)) /\
   (forall pr hs, py_call (type_of_chain p chain) (mkObj (conf o) pr hs (alternate o)) = r) /\
   (conform_passes (conf o) = true ->
      In (EvCustom i) (fst r) /\
@@ -106,11 +117,22 @@ Theorem C14_custom_adapt_replaces : forall p chain o i b rest,
 Proof. exact custom_adapt_replaces. Qed.
 Print Assumptions C14_custom_adapt_replaces.
 
-(* the C fast path (dispatch on '_CALL_CUSTOM_ADAPT' in the exact type's dict) equals the Python
-   path on every chain and behaviour, given the flag propagation of the current __new__ *)
-Theorem C14_c_call_eq_py_call : forall chain o,
-  c_call (type_of_chain true chain) o = py_call (type_of_chain true chain) o.
-Proof. exact c_call_eq_py_call. Qed.
+(* an overridden providedBy (that does not delegate to super) is asked instead of the built-in
+   provided-check, which then never runs and whose answer does not matter *)
+Theorem C14_providedBy_override_replaces : forall p chain o i b rest,
+  prov_defs 0 chain = (i, b) :: rest -> b <> PBDelegate ->
+  ~ In EvProvided (fst (py_call (type_of_chain p chain) o)) /\
+  (forall pr, py_call (type_of_chain p chain) (mkObj (conf o) pr (hooks o) (alternate o)) =
+              py_call (type_of_chain p chain) o).
+Proof. exact providedBy_override_replaces. Qed.
+Print Assumptions C14_providedBy_override_replaces.
+
+(* the C fast paths (dispatch on '_CALL_CUSTOM_ADAPT' / '_CALL_CUSTOM_PROVIDEDBY' in the exact
+   type's dict) equal the Python path on every chain and behaviour, given the flags set by the
+   current __new__ / __init_subclass__ *)
+Theorem C14_c_call_eq_py_call : forall p chain o,
+  c_call (type_of_chain p chain) o = py_call (type_of_chain p chain) o.
+Proof. exact c_call_eq_py_call_any. Qed.
 Print Assumptions C14_c_call_eq_py_call.
 
 (* with a registry's adapter_hook as the only hook (it answers q = registry.queryAdapter(obj, I)),
@@ -152,23 +174,46 @@ Example C14_witness_hypotheses :
   In (EvHook 1) (fst (py_call (type_of_chain true []) o)) /\
   conform_passes (conf o) = true /\
   hooks o = [HNone] ++ HRaise (mkExn EOther 7) :: [HValue 5] /\
-  custom_defs 0 [mkLvl (Some (CAValue 4)) false; mkLvl None true] = [(0, CAValue 4)] /\
-  py_call (type_of_chain true [mkLvl (Some (CAValue 4)) false; mkLvl None true]) o =
+  custom_defs 0 [mkLvl (Some (CAValue 4)) None false false; mkLvl None None true false] = [(0, CAValue 4)] /\
+  py_call (type_of_chain true [mkLvl (Some (CAValue 4)) None false false; mkLvl None None true false]) o =
     ([EvGetConform; EvCallConform; EvCustom 0], Return 4) /\
   (* a delegating custom __adapt__ below a base one *)
-  py_call (type_of_chain true [mkLvl (Some CANone) false; mkLvl (Some CADelegate) true]) o =
+  py_call (type_of_chain true [mkLvl (Some CANone) None false false; mkLvl (Some CADelegate) None true false]) o =
     ([EvGetConform; EvCallConform; EvCustom 1; EvCustom 0], ReturnAlt).
 Proof. cbv. repeat split; auto 10. Qed.
 
-(* Why the propagation matters (finding F8, fixed in /repo): with the logic before the fix
-   ([type_of_chain false]) the C path skips the inherited custom __adapt__ on
-   IBase[__adapt__ returning 4] <- IDer2[another interfacemethod] and answers from the hooks,
-   while the Python path runs it. *)
+(* Why the flags matter (findings F8 and its two successors, all fixed in /repo).
+   (1) __new__ without propagation and without __init_subclass__: the C path skips the inherited
+       custom __adapt__ on IBase[__adapt__ returning 4] <- IDer2[another interfacemethod];
+   (2) without __init_subclass__ a plain InterfaceClass subclass overriding __adapt__ is ignored by C;
+   (3) without the _CALL_CUSTOM_PROVIDEDBY flag C ignores a providedBy override.
+   With the current logic C and Python agree on all three. *)
 Example C14_old_flag_logic_c_differs :
-  let chain := [mkLvl (Some (CAValue 4)) false; mkLvl None true] in
+  let chain := [mkLvl (Some (CAValue 4)) None false false; mkLvl None None true false] in
   let o := mkObj CAbsent false [HNone] (Some 9) in
-  py_call (type_of_chain false chain) o = ([EvGetConform; EvCustom 0], Return 4) /\
-  c_call (type_of_chain false chain) o = ([EvGetConform; EvProvided; EvHook 0], ReturnAlt) /\
-  c_call (type_of_chain false chain) o <> py_call (type_of_chain false chain) o /\
+  py_call (type_of_chain_gen false false chain) o = ([EvGetConform; EvCustom 0], Return 4) /\
+  c_call (type_of_chain_gen false false chain) o = ([EvGetConform; EvProvided; EvHook 0], ReturnAlt) /\
   c_call (type_of_chain true chain) o = ([EvGetConform; EvCustom 0], Return 4).
-Proof. cbv. repeat split; try reflexivity. discriminate. Qed.
+Proof. cbv. repeat split; reflexivity. Qed.
+
+Example C14_no_init_subclass_c_differs :
+  let plain := [mkLvl (Some (CAValue 4)) None false true] in
+  let prov := [mkLvl None (Some PBTrue) false false] in
+  let o := mkObj CAbsent false [HNone] (Some 9) in
+  py_call (type_of_chain_gen true false plain) o = ([EvGetConform; EvCustom 0], Return 4) /\
+  c_call (type_of_chain_gen true false plain) o = ([EvGetConform; EvProvided; EvHook 0], ReturnAlt) /\
+  c_call (type_of_chain true plain) o = ([EvGetConform; EvCustom 0], Return 4) /\
+  py_call (type_of_chain_gen true false prov) o = ([EvGetConform; EvCustomProv 0], ReturnObj) /\
+  c_call (type_of_chain_gen true false prov) o = ([EvGetConform; EvProvided; EvHook 0], ReturnAlt) /\
+  c_call (type_of_chain true prov) o = ([EvGetConform; EvCustomProv 0], ReturnObj).
+Proof. cbv. repeat split; reflexivity. Qed.
+
+(* a providedBy override that delegates below one that says False: the built-in check never runs,
+   the hooks do *)
+Example C14_witness_providedBy :
+  let chain := [mkLvl None (Some PBFalse) false true; mkLvl None (Some PBDelegate) false false] in
+  py_call (type_of_chain true chain) (mkObj CAbsent true [HValue 3] None) =
+    ([EvGetConform; EvCustomProv 1; EvCustomProv 0; EvHook 0], Return 3) /\
+  prov_defs 0 chain = [(1, PBDelegate); (0, PBFalse)] /\
+  provided_passes (prov_defs 0 chain) (mkObj CAbsent true [HValue 3] None) = true.
+Proof. cbv. repeat split; reflexivity. Qed.
